@@ -11,12 +11,12 @@ ENTRY = dict(
         "fewer than max-frame + one frame bytes lost; induction on the noise length). The full clause is FALSE of model and code: "
         "`C14.resync_counterexample` / `C14.resync_full_false` (finding F2, replayed on the implementation each run). Tie: noise corpora through "
         "the real reader and a real AsyncProtocol producer."),
-    level_note="Partial: re-synchronisation proved only for frames without an inner start-delimiter byte (F2 open). Exception families escaping read() and producer survival rest on the correspondence.",
+    level_note="Partial: re-synchronisation proved only for frames without an inner start-delimiter byte (F2 open). Exception families escaping read() rest on the correspondence; producer survival is a theorem about the producer machine (Props/C09Producer.lean, registered under C09) tied by correspondence.",
     clauses={
         "only protocol errors / end of stream": "theorem for the model + correspondence (exception classes of the implementation)",
         "at least one byte per call": "theorem (C14.progress)",
         "never waits for more than the maximum frame size": "theorem (C14.bounded_consumption, never_waits_beyond_max) + correspondence (buffer level while blocked)",
-        "producer loop keeps running": "correspondence (real AsyncProtocol.frame_producer)",
+        "producer loop keeps running": "theorem (C09Producer.producer_continues, stops_only_on_loss, producer_survives_noise: for EVERY byte stream the producer machine makes every read() of readAll and ends only at the end of the stream / a timeout / a write loss — never on a protocol error) + correspondence (real AsyncProtocol.frame_producer vs the machine at every quiescent point, harness/producer.py)",
         "re-synchronisation after noise": "theorem under noInner68 (C14.resync_partial); full statement refuted (F2, C14.resync_full_false)",
     },
     assumptions=COMMON_ASSUME,
